@@ -1,7 +1,7 @@
 """C19 -- SumGrader accepts exactly the sums equal in value to the author's.
 
-spec -> code: TLC enumerates the cases of MC_SumGrader (parts value / pos / tol / inf / err; part algebra only checks laws of
-              the specification).  Every dumped state carries the author's summation, the submitted summation, the
+spec -> code: TLC enumerates the cases of MC_SumGrader (runs value / wide / pos / tol / inf / err; run algebra only checks laws
+              of the specification).  Every dumped state carries the author's summation, the submitted summation, the
               configuration (all as spec records) and the set of outcome classes SumGrader!Allowed permits.  The records
               are rendered to SumGrader inputs, the real grader is run, the observed class must be in the allowed set.
 code -> spec: a seeded random driver builds larger cases (limits up to +-40, random summands of the exact family, random
@@ -18,7 +18,7 @@ from engine import dump, traces
 FIELDS = ['lower', 'upper', 'summand', 'summation_variable']
 KNOWN_CONSTANTS = ['pi', 'e', 'i', 'j', 'infty']
 KNOWN_FUNCTIONS = ['sin', 'cos', 'exp', 'abs', 'sqrt', 'fact', 'ln', 're']
-PARTS = ['value', 'pos', 'tol', 'inf', 'err']
+PARTS = ['value', 'wide', 'pos', 'tol', 'inf', 'err']       # cfg names; 'wide' = part value, large limits, thinned product
 
 
 # ---------------------------------------------------------------- rendering spec records as text
@@ -595,7 +595,7 @@ def run(ctx):
                 if b is not None:
                     report(ctx, b)
     # code -> spec
-    n = 3000 if ctx.quick else 40000
+    n = 3000 if ctx.quick else 20000
     cases = rand_cases(ctx.rng, n)
     recs = [r for chunk in dump.pmap('engine.adapters.c19', 'observe_chunk', cases) for r in chunk]
     rej = traces.validate(ctx, 'graders/SumGraderTrace.tla', 'graders/SumGraderTrace.cfg', [strip_private(r) for r in recs],
